@@ -75,7 +75,7 @@ func run(c *core.Ctx) {
 	m := ms[c.Shard%len(ms)]
 	sub := c.Shard / len(ms)
 	D := c.Pick(3, 5)
-	e := &bytemc.Explorer{M: m, D: D}
+	e := &bytemc.Explorer{M: m, D: D, Alt: 3}
 	probeMemo := map[string]*probeEntry{}
 	perState := map[int]map[string]*group{} // state id -> group key -> group
 	addGroup := func(s *bytemc.State, entry, kind, target string, b []byte, wit []byte, exp, obs string) {
@@ -211,6 +211,8 @@ func run(c *core.Ctx) {
 		c.Add("traces_validated_against_impl", e.NTrans)
 		c.Add("reference_cross_checks", refChecks)
 		c.Add("cut_at_depth_bound", e.CutDepth)
+		c.Add("merge_audit_runs", e.Audits)
+		c.Add("merge_audit_mismatches", e.AuditMismatches)
 		c.Add("distinct_nontrivial", int64(len(e.States)))
 	}
 	for i := 1; sub == 0 && i < len(e.States) && i < 4000; i += 997 {
